@@ -2,8 +2,11 @@ package bgp
 
 import (
 	"fmt"
+	"regexp"
 	"sort"
+	"strings"
 	"testing"
+	"time"
 )
 
 // ---------------------------------------------------------------------------------------
@@ -217,6 +220,10 @@ type isolationOracle struct {
 	before map[string][]string
 	armed  string // description of the operation being bracketed
 	skip   map[string]bool
+	// route-change bracket: the next step is an UPDATE of rcPeer (source address rcSrc) about rcPfx
+	rcPeer, rcSrc, rcWhat string
+	rcPfx                 map[string]bool
+	rcAt                  time.Duration
 }
 
 // snapshotAll renders every table deeply (all attributes, ids, order).
@@ -260,6 +267,98 @@ func (o *isolationOracle) compare(w *World, after map[string][]string) {
 		}
 	}
 }
+
+// compareRouteChange: an UPDATE from neighbour src about the prefixes pfxs may change that
+// neighbour's Adj-RIB-In, and for those prefixes the Loc-RIB paths of that source and every
+// Adj-RIB-Out. Everything else - other prefixes, and the paths other sources contributed for the
+// same prefixes - must come out of the export machinery exactly as it went in.
+func (o *isolationOracle) compareRouteChange(w *World, after map[string][]string) {
+	touched := func(line string) (pfx string, src string) {
+		f := strings.Fields(line)
+		if len(f) == 0 {
+			return "", ""
+		}
+		for _, x := range f {
+			if v, ok := strings.CutPrefix(x, "src="); ok {
+				src = v
+			}
+		}
+		return f[0], src
+	}
+	var keys []string
+	for k := range o.before {
+		keys = append(keys, k)
+	}
+	sort.Strings(keys)
+	for _, k := range keys {
+		a, ok := after[k]
+		if !ok || k == "adjribin/"+o.rcPeer+"/v4" || k == "adjribin/"+o.rcPeer+"/v6" {
+			continue
+		}
+		keep := func(lines []string) []string {
+			var out []string
+			for _, l := range lines {
+				pfx, src := touched(l)
+				if o.rcPfx[pfx] {
+					// the changed prefix: only Loc-RIB paths of other sources are out of bounds
+					if !strings.HasPrefix(k, "locrib/") || src == o.rcSrc || src == "" {
+						continue
+					}
+				}
+				// (the position of a path among the paths of its prefix legitimately shifts)
+				out = append(out, rankRe.ReplaceAllString(l, " "))
+			}
+			return out
+		}
+		onlyA, onlyB := DiffLines(keep(o.before[k]), keep(a))
+		if len(onlyA)+len(onlyB) > 0 {
+			w.Env.Violate("C13", "table_changed_by_unrelated_route_change", "%s changed %s beyond the announced prefixes / its own paths: before %v ; after %v", o.rcWhat, k, onlyA, onlyB)
+		}
+	}
+}
+
+// BeforeStep (called at quiescence right before the step runs) takes the "before" snapshot of a
+// route change; only when nothing else is in flight (the previous steps were given time to settle).
+func (o *isolationOracle) BeforeStep(w *World, i int, s *Step) {
+	if o.rcPeer != "" {
+		// the bracketed UPDATE was sent by the previous step: judge it if it had time to arrive
+		arrived := w.Env.Sim.Now() > o.rcAt
+		for _, q := range w.Peers {
+			if q.conn != nil && q.conn.pendingPeerTx > 0 {
+				arrived = false
+			}
+		}
+		if arrived {
+			o.compareRouteChange(w, snapshotAll(w))
+		} else {
+			w.Env.probe("route_change_bracket_dropped_too_early")
+		}
+	}
+	o.rcPeer = ""
+	if (s.Kind != "announce" && s.Kind != "withdraw") || s.Peer >= len(w.Peers) || o.armed != "" || len(s.Chunks) > 0 {
+		return
+	}
+	for _, q := range w.Peers {
+		if q.conn != nil && q.conn.pendingPeerTx > 0 {
+			return // an earlier UPDATE (or a fragment of it) is still on its way
+		}
+	}
+	p := w.Peers[s.Peer]
+	if !p.Established() {
+		return
+	}
+	o.before = snapshotAll(w)
+	o.rcPeer, o.rcSrc = p.Cfg.Name, p.Cfg.addrString()
+	o.rcPfx = map[string]bool{}
+	for _, pf := range s.Pfx {
+		o.rcPfx[pf.String()] = true
+	}
+	o.rcWhat = fmt.Sprintf("%s of %v by %s (step %d)", s.Kind, s.Pfx, p.Cfg.Name, i)
+	o.rcAt = w.Env.Sim.Now()
+	w.Env.probe("route_change_bracketed")
+}
+
+var rankRe = regexp.MustCompile(` \[\d+\] `)
 
 func (o *isolationOracle) AfterStep(w *World, i int, s *Step) {
 	// "bracket" steps carry the operation; the snapshot before is taken by the pre-hook
